@@ -1,3 +1,3 @@
 SPECIFICATION TSpec
-CONSTANT Enforce = {"quiet", "fork-equals-std", "out-of-range-rejected", "valid-accepted", "malformed-der-rejected", "cross-verifies", "outcome-allowed", "error-means-no-output", "ok-means-valid-output", "key-equals-std", "signature-equals-std", "verifies", "structurally-bad-rejected", "same-as-std", "arguments-unchanged", "same-verdict-when-repeated", "unknown-event"}
+CONSTANT Enforce = {"quiet", "fork-equals-std", "out-of-range-rejected", "valid-accepted", "malformed-der-rejected", "cross-verifies", "outcome-allowed", "error-means-no-output", "ok-means-valid-output", "key-equals-std", "signature-equals-std", "verifies", "structurally-bad-rejected", "same-as-std", "arguments-unchanged", "same-verdict-when-repeated", "unknown-event", "beyond:quiet", "beyond:public-key-equal-as-std", "beyond:private-key-equal-as-std", "beyond:public-returns-the-public-part", "beyond:key-of-another-type-is-not-equal"}
 CHECK_DEADLOCK FALSE
